@@ -290,7 +290,7 @@ def prop_ic(case):
 def gin_case(draw):
     gc = draw(gen.graph_case(2, 10, labels=('int', 'str', 'tuple'), weighted=False))
     I0, R0 = draw(gen.initial_sets(gc['nodes']))
-    return {'gc': gc, 'I0': I0, 'R0': R0, 'tau': draw(gen.pos_rates), 'gamma': draw(gen.rates), 'seed': draw(st.integers(0, 10 ** 6)),
+    return {'gc': gc, 'I0': I0, 'R0': R0, 'tau': draw(gen.rates), 'gamma': draw(gen.rates), 'seed': draw(st.integers(0, 10 ** 6)),
             'single_R0': draw(st.booleans()), 'single_I0': draw(st.booleans())}
 
 
@@ -317,6 +317,10 @@ def prop_gin(case):
             reach |= oracles.reach(succ, u)
         if not res <= reach:
             fails.append(Failure('get_infected_nodes:unreachable', 'result %r contains nodes not reachable from I0 avoiding R0 (%r)' % (res, res - reach)))
+        if case['tau'] == 0 and case['gamma'] > 0 and res != set(I0):
+            fails.append(Failure('get_infected_nodes:tau=0', 'tau=0, gamma=%r: nobody can be infected, result %r, initial infecteds %r' % (case['gamma'], res, I0)))
+        if case['gamma'] == 0 and case['tau'] > 0 and res != reach:
+            fails.append(Failure('get_infected_nodes:gamma=0', 'gamma=0, tau=%r: every reachable node is infected eventually, result %r, reachable %r' % (case['tau'], res, reach)))
     except Exception as e:
         fails.append(Failure('get_infected_nodes:exception:%s' % exc_signature(e), 'raised %r' % (e,)))
     return Result(fails, nontrivial=bool(R0), classes=['gin'] + (['R0'] if R0 else []))
